@@ -16,7 +16,7 @@ TECHNIQUE = ('exhaustive enumeration of measurement structures x solvers x total
 RULE = ('case = (domain, structure, truth kind, solver, total mode); structures: all non-empty subsets of size <=3 of a 7-entry '
         'projection menu on (A,B,C) (63; disjoint, overlapping, nested, cyclic, out-of-order attributes) with query kind and noise scale '
         'rotated over {dense, None, sparse, operator, prefix, tall} x {1, 0.5, 4}; thorough adds a 4-attribute menu. '
-        'non-trivial = >= 2 measurements; distinct = digest of the case.')
+        'reuse jobs hand ONE measurement list (same tuples and arrays) to two other estimators first. non-trivial = >= 2 measurements; distinct = digest of the case.')
 LEVEL_TEXT = ('Every structure of the menu is estimated with each solver and the attained squared-error loss is compared with a reference '
               'optimum over all nonnegative tables with the same total, which is accepted only with a Frank-Wolfe gap certificate. '
               'Convergence is a limit statement; it is decided at a fixed iteration count with a tolerance relative to the distance '
